@@ -1,4 +1,11 @@
 // Contract overlay for unit `ignorebuild`
+//@ item ProjectType
+//@ item IgnoreFile
+//@ item get_applies_in_path
+//@ header
+pub fn get_applies_in_path(origin: &PathS, ignore_file: &IgnoreFile) -> (r: PathS)
+    // a file found in a directory applies in that directory; a global file applies from the root of the file system
+    ensures r == applies_in_of(*origin, ignore_file), // OBL:C03+C14.get_applies_in_path.the_files_own_directory_or_the_root
 //@ item Ignore
 //@ item IgnoreFilter
 //@ item IgnoreFilter::empty
